@@ -70,4 +70,11 @@ def holdsErrPos (grid : List (List Str)) (pos cell : Str) : Verdict :=
     let actual := (grid.getD r []).getD c []
     if Str.trim isTrimCut actual == cell then .holds else .fails
 
+/-- protogen: a header that is valid but for column `k` is rejected at column `k` (the cursor that becomes
+NameCellPos / TypeCellPos); an accepted header is outside the property -/
+def holdsHeaderPos (k : Nat) (obs : Option Nat) : Verdict :=
+  match obs with
+  | none => .unspec
+  | some c => if c == k then .holds else .fails
+
 end TableauVerif.Spec.C07
